@@ -13,6 +13,8 @@ MANAGERS = {"smA": ["a", "b"], "smB": ["a"]}          # registered scenarios per
 EQS = ["s", "f", "c", "g"]
 STARTS = [0.0, 1.0, 2.0, 0.5, 3.25]
 DTS = [1.0, 0.5, 0.25, 2.0]
+STARTS3 = [0.0, 0.125, 0.375, 0.0625, 0.001]             # three and four decimals (a restore must not round the clock to two)
+DTS3 = [0.125, 0.0625, 0.001]
 STARTS10 = [0.0, 0.1, 0.3, 1.05]                          # non-dyadic lattice (the session clock is snapped to the decimal grid)
 DTS10 = [0.1, 0.05, 0.3]
 CVALS = [5.0, 7.0, 0.5, 3.0]
@@ -270,9 +272,23 @@ def take_steps(srv, iid, steps, log):
     return viol
 
 
+def metrics_step(srv, iid):
+    """the session clock as the server reports it (GET /full-metrics)"""
+    try:
+        return json.loads(srv.client.get("/full-metrics").data).get(iid, {}).get("step", "instance unknown")
+    except Exception as e:
+        return f"full-metrics failed: {type(e).__name__}"
+
+
+def with_clock(st, srv, iid):
+    if st is not None:
+        st["metrics_step"] = metrics_step(srv, iid)
+    return st
+
+
 def observe(srv, iid):
     b = srv.bptk(iid)
-    st = canon_state(b.session_state) if b is not None else None
+    st = with_clock(canon_state(b.session_state), srv, iid) if b is not None else None
     raw = copy.deepcopy(b.session_state) if b is not None else None
     r = srv.client.get(f"/{iid}/session-results")
     res = json.loads(r.data) if r.status_code == 200 else {"http": r.status_code}
@@ -474,6 +490,7 @@ def _run_case(case, base):
     srv = Server(spec, case["compress"], path)
     req, exp, viol = [], [], []
     nr, ns = Numbering(), Numbering()
+    srv2 = None
     try:
         ids, logs, priors = [], [], []
         for inst in case["instances"]:
@@ -494,7 +511,7 @@ def _run_case(case, base):
                     res_r = srv.client.get(f"/{iid}/session-results")
                     b = srv.bptk(iid)
                     res_a = json.loads(res_r.data) if res_r.status_code == 200 and b is not None else {"http": res_r.status_code}
-                    c = classify(st_b, canon_state(copy.deepcopy(b.session_state)) if b is not None else None, res_b, res_a, case["compress"])
+                    c = classify(st_b, with_clock(canon_state(copy.deepcopy(b.session_state)), srv, iid) if b is not None else None, res_b, res_a, case["compress"])
                     if c is not None:
                         viol.append((c[0], f"{'compressed' if case['compress'] else 'plain'} mode, restore after session {len(hist)}: {c[1]}",
                                      {"instance": len(ids), "session": len(hist)}))
@@ -517,8 +534,10 @@ def _run_case(case, base):
         if case.get("idle") and SAVE_STATE_SKIPS_SESSIONLESS[0]:
             post(srv.client, "/start-instance")           # an instance that never begins a session: nothing to externalise,
                                                           # and it must not keep /save-state from saving the others
-        for route in ("instance", "server"):
+        srv2 = None
+        for route in ("instance", "server", "startup") if case.get("startup", True) else ("instance", "server"):
             before = [observe(srv, iid) for iid in ids]
+            rs = srv                                      # the server the restored instances are read from
             if route == "instance":
                 for n, iid in enumerate(ids):         # what a timeout does: the instance leaves the manager ...
                     if logs[n]:                       # (only instances that have been externalised)
@@ -529,22 +548,38 @@ def _run_case(case, base):
                 if r.status_code != 200:
                     viol.append((f"save-state-http-{r.status_code}", "GET /save-state failed", {}))
                     break
-                r = post(srv.client, "/load-state")
-                if r.status_code != 200:
-                    viol.append((f"load-state-http-{r.status_code}", "POST /load-state failed", {}))
-                    break
+                if route == "server":
+                    r = post(srv.client, "/load-state")
+                    if r.status_code != 200:
+                        viol.append((f"load-state-http-{r.status_code}", "POST /load-state failed", {}))
+                        break
+                else:                                     # a new server on the same directory: load at start-up
+                    try:
+                        srv2 = rs = Server(spec, case["compress"], path)
+                    except Exception as e:
+                        viol.append(("startup-load-failed", f"BptkServer.__init__ on the saved state raised {e!r}", {}))
+                        break
             for n, iid in enumerate(ids):
                 if not logs[n]:
                     continue                          # never stepped: never externalised (outside the statement)
-                res_r = srv.client.get(f"/{iid}/session-results")
-                res_after = json.loads(res_r.data) if res_r.status_code == 200 and srv.bptk(iid) is not None else {"http": res_r.status_code}
-                b = srv.bptk(iid)
+                res_r = rs.client.get(f"/{iid}/session-results")
+                res_after = json.loads(res_r.data) if res_r.status_code == 200 and rs.bptk(iid) is not None else {"http": res_r.status_code}
+                b = rs.bptk(iid)
                 raw_after = copy.deepcopy(b.session_state) if b is not None else None
                 st_before, raw_before, res_before = before[n]
-                c = classify(st_before, canon_state(raw_after), res_before, res_after, case["compress"])
+                c = classify(st_before, with_clock(canon_state(raw_after), rs, iid), res_before, res_after, case["compress"])
                 if c is not None:
                     viol.append((c[0], f"{'compressed' if case['compress'] else 'plain'} mode, {route} save/load: {c[1]}",
                                  {"instance": n, "route": route}))
+                if route == "startup":
+                    # the time of the next step: the restored session goes on exactly at the saved clock
+                    r = post(rs.client, f"/{iid}/run-step", {"settings": {}})
+                    one = json.loads(r.data) if r.status_code == 200 else {}
+                    times = {float(t) for a in one.values() if isinstance(a, dict) for b_ in a.values() for ser in b_.values() for t in ser}
+                    if c is None and "msg" not in one and times and times != {float(raw_before["step"])}:
+                        viol.append(("next-step-off-grid", f"{route} load: clock saved at {raw_before['step']!r}, the next step is taken at {sorted(times)}",
+                                     {"instance": n, "route": route}))
+                    continue
                 try:
                     q, e = model_lines(case["instances"][n], raw_before, logs[n], raw_after, res_after, case["compress"],
                                        read_file_state(path, iid), nr, ns, route, read_file_raw(path, iid), PK_STATS, priors[n])
@@ -555,12 +590,21 @@ def _run_case(case, base):
                 break
             if route == "instance":                   # the restored sessions go on; second save/load sees mixed key types
                 for n, iid in enumerate(ids):
+                    clock = before[n][1]["step"] if before[n][1] is not None else None
+                    nlog = len(logs[n])
                     v = take_steps(srv, iid, case["instances"][n].get("extra", []), logs[n])
                     viol += [(k, t, {"instance": n, "after": "restore"}) for k, t in v]
+                    if not v and nlog and len(logs[n]) > nlog and "msg" not in logs[n][nlog][1]:
+                        times = {float(t) for a in logs[n][nlog][1].values() for b_ in a.values() for ser in b_.values() for t in ser}
+                        if times and times != {float(clock)}:
+                            viol.append(("next-step-off-grid", f"instance load: clock saved at {clock!r}, the next step is taken at {sorted(times)}",
+                                         {"instance": n, "route": "instance"}))
                 if viol:
                     break
     finally:
         srv.close()
+        if srv2 is not None:
+            srv2.close()
         shutil.rmtree(path, ignore_errors=True)
     return req, exp, viol
 
@@ -626,8 +670,11 @@ def gen_step(rng, sms, scs):
 
 
 def gen_case(rng, quick):
-    if rng.chance(1, 3):
+    r_ = rng.below(6)
+    if r_ < 2:
         start, dt = rng.choice(STARTS10), rng.choice(DTS10)
+    elif r_ < 3:
+        start, dt = rng.choice(STARTS3), rng.choice(DTS3)
     else:
         start, dt = rng.choice(STARTS), rng.choice(DTS)
     horizon = rng.choice([2, 4, 12, 12, 12])
@@ -665,7 +712,7 @@ def gen_case(rng, quick):
     for inst in insts:
         if rng.chance(1, 4):
             inst["sms"] = inst["sms"] + ["nosuch"]        # a manager named in the session that is not registered: {} in every step's results
-    return {"spec": spec, "compress": rng.chance(2, 3), "instances": insts, "idle": rng.chance(1, 3)}
+    return {"spec": spec, "compress": rng.chance(2, 3), "instances": insts, "idle": rng.chance(1, 3), "startup": rng.chance(1, 2)}
 
 
 def gen_session_step(rng, sms, scs):
@@ -729,7 +776,7 @@ def exhaustive_cases(quick):
         letters = range(4) if n > (2 if quick else 3) else range(len(alpha))
         for seq in itertools.product(letters, repeat=n):
             for compress in ((True, False) if not quick or n == 1 else (sum(seq) % 2 == 0,)):
-                out.append({"spec": {"start": 2.0, "dt": 0.5, "stop": 12.0}, "compress": compress,
+                out.append({"spec": {"start": 2.0, "dt": 0.5, "stop": 12.0}, "compress": compress, "startup": n == 1 or not quick,
                             "instances": [{"sms": ["smA"], "scs": ["a", "b"], "eqs": ["s", "c"],
                                            "steps": [copy.deepcopy(alpha[i]) for i in seq], "extra": [{"k": "empty"}]}]})
     mixed = [alpha[2], alpha[0], alpha[3], alpha[1], alpha[6], alpha[7]]
@@ -740,6 +787,18 @@ def exhaustive_cases(quick):
             out.append({"spec": {"start": start, "dt": dt, "stop": start + 20 * dt}, "compress": compress,
                         "instances": [{"sms": ["smA", "nosuch"], "scs": ["a"], "eqs": ["s", "g"],
                                        "steps": copy.deepcopy([alpha[0], alpha[2], alpha[4], alpha[3], alpha[1], alpha[2]]), "extra": [copy.deepcopy(alpha[4])]}]})
+    # three and four decimals: the clock after an odd number of steps (0.375 at dt 0.125) is not a multiple of 0.01; odd and
+    # even step counts at the three save points (instance: 9 or 10 steps; server / start-up: +1 or +3)
+    pairs3 = [(a, d) for a in STARTS3 for d in DTS3]
+    if quick:
+        pairs3 = [(0.0, 0.125), (0.375, 0.125), (0.125, 0.0625), (0.0625, 0.0625), (0.001, 0.001), (0.0, 0.001)]
+    for j, (start, dt) in enumerate(pairs3):
+        for odd in (False, True):
+            for compress in ((True, False) if not quick else ((j + odd) % 2 == 0,)):
+                out.append({"spec": {"start": start, "dt": dt, "stop": round(start + 16 * dt, 6)}, "compress": compress,
+                            "instances": [{"sms": ["smA", "smB"], "scs": ["a", "b"], "eqs": ["s", "g"],
+                                           "steps": copy.deepcopy(mixed[1:] if odd else mixed),
+                                           "extra": [copy.deepcopy(alpha[0])] if odd else [copy.deepcopy(alpha[0]), copy.deepcopy(alpha[4])]}]})
     for starts, dts in ((STARTS, DTS), (STARTS10, DTS10)):
         for start in starts:
             for dt in dts:
@@ -789,6 +848,11 @@ SECOND_SESSION_WITNESS = {"spec": {"start": 2.0, "dt": 0.5, "stop": 5.0}, "compr
                                          "steps": [{"k": "multi", "n": 2, "settings": {}}], "extra": []}]}
 
 
+CLOCK_WITNESS = {"spec": {"start": 0.0, "dt": 0.125, "stop": 2.0}, "compress": False,
+                 "instances": [{"sms": ["smA"], "scs": ["a"], "eqs": ["s"], "steps": [{"k": "empty"}, {"k": "empty"}, {"k": "empty"}],
+                                "extra": [{"k": "empty"}, {"k": "empty"}]}]}
+
+
 def probe(base):
     from BPTK_Py.util import statecompression as sc
     facts = {}
@@ -834,6 +898,9 @@ def probe(base):
     _, _, v = run_case(SECOND_SESSION_WITNESS, base)
     facts["saveAfterEveryStepRequest"] = not v
     SAVES_AFTER_EVERY_STEP_REQUEST[0] = facts["saveAfterEveryStepRequest"]
+    # wave 6 -- the restore applies no function to the clock (dt 0.125, three steps: clock 0.375), all three load paths
+    _, _, v = run_case(CLOCK_WITNESS, base)
+    facts["restoreKeepsClock"] = not any(k in ("session-clock-not-restored", "next-step-off-grid", "session-fields-not-restored") for k, _, _ in v)
     # wave 2 -- the pickler: a real session state in which one settings object is logged for several steps
     facts.update(probe_pickle(base))
     return facts
@@ -941,6 +1008,7 @@ def gen_lean(facts):
     ns, nr = Numbering(), Numbering()
     res = bool(facts.get("decoderResolvesRefs"))
     sav = bool(facts.get("saveAfterEveryStepRequest"))
+    clk = bool(facts.get("restoreKeepsClock"))
     head = ("import Bptk.Props.C19\n/-! GENERATED by harness/props/c19.py from /repo on every run — do not edit. -/\n"
             "namespace Bptk.C19.Gen\n"
             f"/-- probed: decompress(compress(log)) keeps the step times: {facts['compressionKeepsSteps']}; "
@@ -948,11 +1016,14 @@ def gen_lean(facts):
             f"dictionaries: {facts.get('compressionKeepsEmptyInner')}; FileAdapter._load_instance resolves py/id: {res} -/\n"
             f"-- every step-advancing request is followed by a write of the instance (second session stepped to the clock position "
             f"written last is in the file): {sav}\n"
-            f"def cfg : Cfg := {{ decoderResolvesRefs := {'true' if res else 'false'}, saveAfterEveryStepRequest := {'true' if sav else 'false'} }}\n"
+            f"-- the restored clock is the saved clock (dt 0.125, clock 0.375, lazy load / load-state / start-up): {clk}\n"
+            f"def cfg : Cfg := {{ decoderResolvesRefs := {'true' if res else 'false'}, saveAfterEveryStepRequest := {'true' if sav else 'false'}, "
+            f"restoreKeepsClock := {'true' if clk else 'false'} }}\n"
             "theorem holds_all_codecs : C19_full := C19_full_holds\n#print axioms holds_all_codecs\n"
-            + ("theorem holds : C19_full_cfg cfg := C19_full_of_good cfg (by decide)\n#print axioms holds\n" if res and sav else
+            + ("theorem holds : C19_full_cfg cfg := C19_full_of_good cfg (by decide)\n#print axioms holds\n" if res and sav and clk else
                "theorem violated : ¬ C19_full_cfg cfg := C19_witness_plain_reader cfg (by decide)\n#print axioms violated\n" if not res else
-               "theorem violated : ¬ C19_full_cfg cfg := C19_witness_skip_save cfg (by decide)\n#print axioms violated\n"))
+               "theorem violated : ¬ C19_full_cfg cfg := C19_witness_skip_save cfg (by decide)\n#print axioms violated\n" if not sav else
+               "theorem violated : ¬ C19_full_cfg cfg := C19_witness_rounding_restore cfg (by decide)\n#print axioms violated\n"))
     if "pk_state" in facts:
         try:
             pv = py_to_pv(facts["pk_state"], {})
@@ -1053,7 +1124,7 @@ def _run(chk, base):
     req, exp, owners = [], [], []
     viol_by_key = {}
     dist = {"set": 0, "empty": 0, "nobody": 0, "multi": 0, "lib": 0, "stream": 0, "several_sessions": 0, "same_clock_as_last_write": 0, "compressed": 0, "plain": 0, "instances": {1: 0, 2: 0, 3: 0},
-            "non_dyadic": 0, "non_normal_settings": 0, "unregistered_manager": 0, "label_text_order_differs": 0}
+            "non_dyadic": 0, "non_normal_settings": 0, "unregistered_manager": 0, "label_text_order_differs": 0, "three_or_four_decimals": 0}
     for k in PK_STATS:
         PK_STATS[k] = 0
     for ci, case in enumerate(cases):
@@ -1066,6 +1137,7 @@ def _run(chk, base):
         for k in kinds:
             dist[k] += 1
         dist["compressed" if case["compress"] else "plain"] += 1
+        dist["three_or_four_decimals"] += int(case["spec"]["dt"] in DTS3)
         dist["unregistered_manager"] += sum(1 for i in case["instances"] if "nosuch" in i["sms"])
         dist["label_text_order_differs"] += int(case["spec"]["start"] in (9.0, -2.0, 99.0, 5.0) and case["spec"]["dt"] in (1.0, 0.5))
         dist["non_dyadic"] += 1 if Fraction(case["spec"]["dt"]).denominator > 1024 or Fraction(case["spec"]["start"]).denominator > 1024 else 0
